@@ -202,7 +202,13 @@ func (rs *bodyStream) Read(p []byte) (int, error) {
 	}
 
 	if conn, ok := rs.reader.(io.Reader); ok {
-		m, err = conn.Read(p[n:])
+		if rs.contentLength >= 0 {
+			// never read past the end of this body: what follows belongs to the next message
+			m, err = conn.Read(p[n : n+m])
+		} else {
+			// identity body: it ends when the connection is closed
+			m, err = conn.Read(p[n:])
+		}
 	} else {
 		var tmp []byte
 		tmp, err = rs.reader.Peek(m)
